@@ -81,6 +81,10 @@ def pvals_world(values, objs):
         variants[f'o{digest(v)[:10]}'] = [[['configs', 'root', 'values', 'v'], v]]
     variants['ph'] = [[['configs', 'root', 'values', 'v'], '{DIR}/x/{UNDEF}'], [['global_vars'], {'DIR': '/data'}]]
     variants['ph2'] = [[['configs', 'root', 'values', 'v'], ['{DIR}', {'k': 'a{DIR}b'}]], [['global_vars'], {'DIR': 'elsewhere'}]]
+    # with global_vars given, every string with a {...} group is represented as Python writes it (escapes), also when nothing was replaced
+    for i, txt in enumerate(["\\w{2,}", "{name}'s", "a\tb{UNDEF}", "plain's \\ no group", ["{x}\\y", {'k': "q'{UNDEF}"}]]):
+        variants[f'esc{i}'] = [[['configs', 'root', 'values', 'v'], txt], [['global_vars'], {'DIR': '/d'}]]
+        variants[f'esc{i}_nogv'] = [[['configs', 'root', 'values', 'v'], txt]]
     variants['path'] = [[['configs', 'root', 'values', 'v'], 0], [['configs', 'root', 'values', 'pth'], '/some/path']]
     variants['pathph'] = [[['configs', 'root', 'values', 'v'], 0], [['configs', 'root', 'values', 'pth'], '{DIR}/p'], [['global_vars'], {'DIR': '/d'}]]
     variants['ign'] = [[['configs', 'root', 'values', 'v'], 0], [['configs', 'root', 'values', 'ign'], 5]]
@@ -288,6 +292,44 @@ def golden_subset(fam):
     return out
 
 
+def dotted_name_mode_paths():
+    import tcv
+    from pathlib import Path
+
+    tcv.quiet_library()
+    from taskchain import Config, Task
+    from taskchain.data import DirData
+
+    class Fj(Task):
+        def run(self) -> int:
+            return 1
+
+    class Dd(Task):
+        def run(self) -> DirData:
+            d = self.get_data_object()
+            (d.dir / 'x').write_text('x')
+            return d
+
+    out = []
+    root = scratch.fresh('c12d')
+    try:
+        for name in ('exp.v1', 'exp.v2', 'lr_0.1'):
+            ch = Config(Path(root) / 'data', name=name, data={'tasks': [Fj, Dd]}).chain(parameter_mode=False)
+            for t, rel in (('fj', f'fj/{name}.json'), ('dd', f'dd/{name}')):
+                _ = ch[t].value
+                got = os.path.relpath(str(ch[t].data_path), os.path.join(root, 'data'))
+                if got != rel or not os.path.exists(os.path.join(root, 'data', rel)):
+                    out.append(('result of a config with a dotted name is not stored under its whole name', f'config {name} task {t}: {got}, expected {rel}'))
+                for side in ('.run_info.yaml', '.log'):
+                    if not os.path.exists(os.path.join(root, 'data', t, name + side)):
+                        out.append(('run info / log of a config with a dotted name are not beside the result under its whole name', f'config {name} task {t}: {t}/{name}{side} missing'))
+    except Exception as e:  # noqa
+        out.append(('name mode with dotted config names fails', f'{type(e).__name__}: {e}'))
+    finally:
+        scratch.drop(root)
+    return out[:4]
+
+
 def run(tier, seed):
     fam = family(tier)
     jobs = []
@@ -324,6 +366,10 @@ def run(tier, seed):
                     raise HarnessError(f'reference model drifted from golden vectors: {wname}/{vid}/{mode}: {bad}')
     if ng < 200:
         raise HarnessError(f'only {ng} golden vectors matched the family')
+    # name mode, config names with dots: `<task>/<config name>.<ext>` keeps the whole name (file and directory results)
+    for sig, what in dotted_name_mode_paths():
+        res.violations.append(Violation(f'name mode: {sig}', what, {'kind': 'dotted-name-mode'}))
+    res.add('evaluations', 6)
     # module-derived groups across two modules (a task class subclassing a task class of another module), every declaration / first-touch order
     import tcv
     from tcv import modgroups, scratch
@@ -354,6 +400,8 @@ def replay(case):
     import tcv
 
     tcv.quiet_library()
+    if case.get('kind') == 'dotted-name-mode':
+        return [Violation(f'name mode: {sig}', what, case) for sig, what in dotted_name_mode_paths()]
     if case.get('kind') == 'module-groups':
         from tcv import modgroups, scratch
         n, bad = modgroups.check(scratch.fresh('c12mg'))
